@@ -465,3 +465,53 @@ Proof.
   { rewrite <- H4. clear. induction (t_ins t) as [|a r IH]; cbn [eqb_list]; [reflexivity|]. rewrite Z.eqb_refl, IH. reflexivity. }
   rewrite Heq. cbn [negb]. eexists. split; [reflexivity|]. apply vis_loop_ok. congruence.
 Qed.
+
+(* -------------------- the evaluated premise implies the theorems' premise *)
+Lemma nth_error_combine {A B} : forall (l1 : list A) (l2 : list B) n a b,
+  nth_error l1 n = Some a -> nth_error l2 n = Some b -> nth_error (combine l1 l2) n = Some (a, b).
+Proof.
+  induction l1 as [|x l1 IH]; intros [|y l2] [|n] a b H1 H2; cbn in *; try discriminate.
+  - injection H1 as ->. injection H2 as ->. reflexivity.
+  - apply IH; assumption.
+Qed.
+
+Lemma ids_pairs_ok_spec : forall ids outs, ids_pairs_ok ids outs = true ->
+  List.length ids = List.length outs /\
+  forall i j a b oa ob,
+    nth_error ids i = Some a -> nth_error ids j = Some b ->
+    nth_error outs i = Some oa -> nth_error outs j = Some ob -> (a = b <-> oa = ob).
+Proof.
+  induction ids as [|a0 ids IH]; intros [|o0 outs] H; cbn [ids_pairs_ok] in H; try discriminate.
+  - split; [reflexivity|]. intros [|i] j a b oa ob H1; discriminate.
+  - apply Bool.andb_true_iff in H. destruct H as [Hhead Hrest]. destruct (IH outs Hrest) as [Hlen Hall].
+    split; [cbn; congruence|].
+    assert (Hh : forall n b ob, nth_error ids n = Some b -> nth_error outs n = Some ob -> (a0 = b <-> o0 = ob)).
+    { intros n b ob Hb Hob. pose proof (nth_error_combine _ _ _ _ _ Hb Hob) as Hc. apply nth_error_In in Hc.
+      rewrite forallb_forall in Hhead. specialize (Hhead _ Hc). cbn [fst snd] in Hhead.
+      apply Bool.eqb_prop in Hhead. rewrite <- Z.eqb_eq, <- txout_eqb_spec, Hhead. tauto. }
+    intros [|i] [|j] a b oa ob H1 H2 H3 H4; cbn [nth_error] in *.
+    + injection H1 as <-. injection H2 as <-. injection H3 as <-. injection H4 as <-. tauto.
+    + injection H1 as <-. injection H3 as <-. eapply Hh; eassumption.
+    + injection H2 as <-. injection H4 as <-. destruct (Hh i a oa H1 H3) as [Ha Hb]. split; intros Hx; symmetry; [apply Ha|apply Hb]; symmetry; exact Hx.
+    + eapply Hall; eassumption.
+Qed.
+
+Lemma facts_consistent_b_spec cap t :
+  len (t_outs t) <= cap -> facts_consistent_b cap t = true -> facts_consistent t.
+Proof.
+  intros Hcap H. unfold facts_consistent_b in H.
+  replace (cap <? len (t_outs t)) with false in H by lia.
+  apply Bool.andb_true_iff in H. destruct H as [H Hr].
+  apply Bool.andb_true_iff in H. destruct H as [H Hi].
+  apply Bool.andb_true_iff in H. destruct H as [Hids Hs].
+  apply Bool.eqb_prop in Hs. apply Bool.eqb_prop in Hi.
+  unfold facts_consistent. split; [apply ids_pairs_ok_spec; exact Hids|]. split; [|split].
+  - unfold over, overb, MaxUint16 in *. destruct (t_size t); cbn [is_none] in Hs.
+    + split; [discriminate|]. intros Ho. exfalso. lia.
+    + split; [intros _|reflexivity]. lia.
+  - unfold MaxUint16 in *. destruct (t_inner_actual t); cbn [is_none] in Hi.
+    + split; [discriminate|]. intros Ho. exfalso. lia.
+    + split; [intros _|reflexivity]. lia.
+  - apply Forall_forall. intros o Ho. rewrite forallb_forall in Hr. specialize (Hr o Ho).
+    unfold in_ub in Hr. unfold in_u. lia.
+Qed.
